@@ -355,10 +355,12 @@ def check_case(case, ctx):
             return
         presented = entry.cert.to_cryptography()
         # serve (cert, key, chain) with a Python-ssl server to the strict client
-        kp = E["keypem"].get(id(entry.privatekey))
+        # (cached per CA flavour: the key lives in that flavour's confdir for the whole process.  Never key this on id():
+        # the certstore is reloaded when the confdir option changes and object ids get reused)
+        kp = E["keypem"].get(flavour)
         if kp is None:
             kp = entry.privatekey.private_bytes(T.serialization.Encoding.PEM, T.serialization.PrivateFormat.PKCS8, T.serialization.NoEncryption())
-            E["keypem"] = {id(entry.privatekey): kp}
+            E["keypem"][flavour] = kp
         chain_pem = b"".join(x.to_pem() for x in entry.chain_certs)
         import os
         p = T.write_file("c16-srv.pem", presented.public_bytes(T.serialization.Encoding.PEM) + chain_pem + kp)
